@@ -3,14 +3,53 @@
    Model: Ledger/Pending.v (filterTx for unconfirmed transactions, insertMemPoolTx, addUnminedCredits,
    insertUnminedInputs, insertMinedTx's settle part, removeDoubleSpends, removeConflict, Rollback's move
    back to the unmined bucket, deleteUnminedInputs, the handler's volatile set, the flag and selection
-   queries) wrapped around the frozen mined-side model Ledger/Model.v. *)
+   queries) wrapped around the frozen mined-side model Ledger/Model.v.
+
+   Environment assumptions that appear as premises:
+   - [tx_ordered] / [event_ordered]: a transaction spends outputs of transactions created before it
+     (ids are assigned in creation order; E4 of DESIGN.md appendix A);
+   - [node_knows n b]: the node can produce the previous transaction of every input of a block it
+     announces (E1);
+   - [guard s]: no two pending transactions spend the same outpoint, registrations name real inputs,
+     pending records are serialized transactions.  The first clause excludes exactly the shape of
+     finding flag-lost:shared-input-key (C09_shared_key_refuted shows what happens without it). *)
 From Coq Require Import List ZArith NArith Bool.
 Import ListNotations.
 Open Scope Z_scope.
 Require Import MW.Ledger.Model MW.Ledger.Spec MW.Ledger.Run MW.Ledger.Pending MW.Ledger.PendingProofs.
 
-(* the coins an unconfirmed transaction creates are not counted as confirmed: receiving it leaves
-   credits, balances, the synced chain and the mined deposit rows — everything C01 reports — untouched *)
+(* ---- flagged, not reused *)
+
+(* once an unconfirmed transaction is accepted, every coin it spends that the wallet can recognise as its
+   own is reported spent_by_unmined and is not eligible for automatic selection; the transaction can be
+   read back from the pending set *)
+Theorem C09_flag :
+  forall p own n s t s', receive_store p own n s t = POk (Some s') -> pend s (t_id t) = None ->
+    read_unmined s' (t_id t) = RdOk t /\
+    forall ph pv pt o w, In (ph, pv) (t_ins t) ->
+      lookup_pending n (ps_unmined s) ph = Some pt -> nth_error (t_outs pt) (N.to_nat pv) = Some o ->
+      o_class o <> CUnsupported -> own (o_sh o) = Some w ->
+      In (t_id t) (ui_get (ps_uinputs s') (ph, pv)) /\ spent_by_unmined s' (ph, pv) = true /\
+      forall c, credit_op c = (ph, pv) -> eligible s' c = false.
+Proof. exact receive_flags. Qed.
+Print Assumptions C09_flag.
+
+(* the flag stays while the transaction stays pending: a mined record removes a registration only
+   together with its transaction, or under an outpoint the mined transaction itself spends *)
+Theorem C09_flag_kept :
+  forall p own h bid s r s', guard s -> p_apply_rec p own h bid s r = POk s' ->
+    forall o sp, In sp (ui_get (ps_uinputs s) o) -> pend s' sp <> None ->
+      ~ In o (t_ins (rr_tx r)) -> In sp (ui_get (ps_uinputs s') o).
+Proof. exact flag_kept_by_mined_record. Qed.
+Print Assumptions C09_flag_kept.
+
+Theorem C09_flagged_not_eligible :
+  forall s c, spent_by_unmined s (credit_op c) = true -> eligible s c = false.
+Proof. exact eligible_not_flagged. Qed.
+Print Assumptions C09_flagged_not_eligible.
+
+(* ---- not counted as confirmed *)
+
 Theorem C09_not_counted :
   forall p own n hs t,
     let hs' := fst (receive_tx p own n hs t) in
@@ -19,3 +58,94 @@ Theorem C09_not_counted :
     forall w, model_report (ps_w (h_store hs')) w = model_report (ps_w (h_store hs)) w.
 Proof. exact receive_tx_not_counted. Qed.
 Print Assumptions C09_not_counted.
+
+(* ---- settled once *)
+
+(* mining a pending transaction leaves exactly the mined state (credits, balances, block records, mined
+   deposit rows) that mining it without ever having seen it pending leaves — the function
+   m_connect_block of the mined side alone, whose ledger part is C01's connect_block — and removes it
+   from the pending set *)
+Theorem C09_settle_once :
+  forall p own n s t s1 b sa ida sb idb,
+    node_knows n b ->
+    receive_store p own n s t = POk (Some s1) ->
+    p_connect_block p own n (ps_unmined s1) s1 b = POk (sa, ida) ->
+    p_connect_block p own n (ps_unmined s) s b = POk (sb, idb) ->
+    mined sa = mined sb /\ ida = idb /\
+    m_connect_block p own n (mined s) b = Some (mined sa, ida) /\
+    connect_block p true own (credits (ps_w s)) (node_tx n) (ps_w s) b = Ok (ps_w sa) /\
+    (In (t_id t) ida -> um_get (ps_unmined sa) (t_id t) = None).
+Proof. exact settle_once. Qed.
+Print Assumptions C09_settle_once.
+
+(* every relevant record of a connected block leaves the pending set, its unmined credits go with it,
+   and connecting never adds a pending record *)
+Theorem C09_settled_records :
+  forall p own h bid s r s', p_apply_rec p own h bid s r = POk s' ->
+    shrinks s s' /\ um_get (ps_unmined s') (t_id (rr_tx r)) = None /\
+    (um_get (ps_unmined s) (t_id (rr_tx r)) <> None ->
+     forall i, In i (out_indexes (rr_tx r)) -> uc_get (ps_ucredits s') (t_id (rr_tx r), i) = None).
+Proof. exact p_apply_rec_settles. Qed.
+Print Assumptions C09_settled_records.
+
+(* ---- a conflicting transaction confirms *)
+
+Theorem C09_conflict_purges_descendants :
+  forall own s r s', guard s -> remove_double_spends own s r = POk s' ->
+    (forall ri T, In ri (rr_ins r) -> In T (ui_get (ps_uinputs s) (ri_prev ri)) ->
+        pend s' T = None /\ forall D, desc s T D -> pend s' D = None) /\
+    (forall X tX, pend s X = Some (USer tX) -> pend s' X = None ->
+        (forall o, ~ In X (ui_get (ps_uinputs s') o)) /\
+        (forall o, In o (t_ins tX) -> spent_by_unmined s' o = false)) /\
+    shrinks s s'.
+Proof. exact conflict_purges_descendants. Qed.
+Print Assumptions C09_conflict_purges_descendants.
+
+(* removeConflict itself: the transaction, its registrations and its unmined credits are gone *)
+Theorem C09_conflict_removed :
+  forall fuel own s h t s', remove_conflict fuel own s h t = POk s' ->
+    um_get (ps_unmined s') h = None /\
+    (forall o, In o (t_ins t) -> ui_get (ps_uinputs s') o = []) /\
+    (forall i, In i (out_indexes t) -> uc_get (ps_ucredits s') (h, i) = None).
+Proof. exact remove_conflict_removes. Qed.
+Print Assumptions C09_conflict_removed.
+
+(* the recursion of removeConflict terminates: the fuel the model passes is never exhausted, in any
+   state reachable by any history of ordered transactions *)
+Theorem C09_conflict_fuel :
+  forall p a3fix g evs b, block_ordered g -> Forall event_ordered evs -> block_ordered b ->
+    let s := prun p a3fix g evs in
+    pprocess p a3fix (own_of (q_own s)) (q_node s) (q_h s) b <> PErr EOutOfFuel.
+Proof. exact process_never_out_of_fuel. Qed.
+Print Assumptions C09_conflict_fuel.
+
+(* ---- reorganised away: back in the pending set, readable *)
+
+Theorem C09_rollback_readable :
+  forall cs s r s' ops,
+    NoDup (map t_id (br_txs r)) ->
+    rollback_move true cs s r = POk (s', ops) ->
+    forall t, In t (br_txs r) -> t_cb t = false ->
+      read_unmined s' (t_id t) = RdOk t /\ forall o, In o (t_ins t) -> In (t_id t) (ui_get (ps_uinputs s') o).
+Proof. exact rollback_readable. Qed.
+Print Assumptions C09_rollback_readable.
+
+(* the code as first found (Rollback stored the 28-byte location; repaired in /repo, cb8fee8) *)
+Theorem C09_rollback_readable_unfixed_refuted :
+  exists cs s r s' ops t,
+    rollback_move false cs s r = POk (s', ops) /\ In t (br_txs r) /\ t_cb t = false /\
+    read_unmined s' (t_id t) <> RdOk t.
+Proof. exact rollback_readable_unfixed_refuted. Qed.
+Print Assumptions C09_rollback_readable_unfixed_refuted.
+
+(* finding flag-lost:shared-input-key: without the first clause of the guard the flag is lost.  Two pending
+   transactions share wallet coin (1,0); a transaction double-spending only the first one's other input
+   confirms; the second stays pending, yet the coin is neither flagged nor withheld from selection *)
+Theorem C09_shared_key_refuted :
+  let s := h_store (q_h (prun SharedKey.p true SharedKey.g SharedKey.evs)) in
+  Forall event_ordered SharedKey.evs /\
+  read_unmined s 11%N = RdOk SharedKey.t2 /\ In (1, 0)%N (t_ins SharedKey.t2) /\
+  spent_by_unmined s (1, 0)%N = false /\
+  exists c, In c (eligible_list s 1%N) /\ credit_op c = (1, 0)%N.
+Proof. exact flag_lost_shared_key_refuted. Qed.
+Print Assumptions C09_shared_key_refuted.
